@@ -220,3 +220,16 @@ if __name__ == "__main__":
                     ("F-C13-1", c13_1), ("F-C13-2", c13_2), ("F-C15-1", c15_1), ("F-C15-2", c15_2),
                     ("F-C20-1", c20_1), ("F-C17-1", c17_1), ("F-C17-2", c17_2), ("F-C19-1", c19_1)]:
         attempt(fid, fn)
+
+
+def f_c11_2():
+    from pysmt.shortcuts import And, Symbol, FALSE, reset_env
+    from pysmt.rewritings import cnf_as_set
+    reset_env()
+    a = Symbol("a")
+    r = cnf_as_set(And(a, FALSE()))
+    bad = r == frozenset([frozenset([a])])
+    print("%s F-C11-2  cnf(a & False) -> %s" % ("DEFECT-PRESENT" if bad else "DEFECT-ABSENT ", r))
+
+
+f_c11_2()
